@@ -1077,7 +1077,7 @@ func vfSenderCase(t *testing.T, s *vfutil.Session, r *vfutil.Rand, c *vfSCase, t
 	// C02, the real restart: from a sample of crash points run the resumed tool and
 	// look at what the target has executed over BOTH runs
 	if c.resume && len(sps) > 0 {
-		nRes := vfutil.Scale(2, 5)
+		nRes := vfutil.Scale(2, 4)
 		if src != "gen" {
 			nRes = len(sps)
 		}
@@ -1220,7 +1220,7 @@ func TestVerifSender(t *testing.T) {
 		vfSenderCase(t, s, r, vfParseCase(l), tag, "corpus")
 		tag++
 	}
-	n := vfutil.Scale(1500, 30000)
+	n := vfutil.Scale(1500, 15000)
 	for i := 0; i < n; i++ {
 		c := vfGenCase(r.Fork(), i)
 		vfSenderCase(t, s, r, c, tag, "gen")
